@@ -140,8 +140,18 @@ def seeded_scenarios(ctx, n):
     out = []
     for i in range(n):
         ops = []
-        fam = i % 6
-        if fam == 5:  # TCP connections (active opens): the 4-tuple is the most specific binding; a rejected duplicate changes nothing
+        fam = i % 7
+        if fam == 6:  # listener churn: close a listener and listen again on the same port at once, many rounds; every SYN is answered
+            port = rng.choice([8000, 8001])
+            for rnd in range(rng.choice([8, 20])):
+                ops += [dict(op='tcp', s=rnd, v=4), dict(op='bind', s=rnd, addr=rng.choice(['', '', '10.0.0.1']), port=port), dict(op='listen', s=rnd, backlog=4)]
+                if rnd % 3 != 2:
+                    ops.append(dict(op='settle', ms=rng.choice([1, 5])))       # let the previous listener's goroutine finish its cleanup
+                ops.append(dict(op='inject', kind='tcp', v=4, src='10.0.0.9', sport=20000 + rnd, dst='10.0.0.1', dport=port, flags='S',
+                                seqhi=rnd + 1, seqlo=77, ackhi=0, acklo=0, n=0, seed=0))
+                ops.append(dict(op='settle', ms=10))
+                ops.append(dict(op='close', s=rnd))
+        elif fam == 5:  # TCP connections (active opens): the 4-tuple is the most specific binding; a rejected duplicate changes nothing
             lp = rng.choice([7000, 7001])
             la = rng.choice(['', '10.0.0.1'])
             peer, pport = '10.0.0.9', 80
@@ -269,10 +279,23 @@ def run(ctx):
     rt = ctx.tlc('DemuxTcp', ct, SPEC, name='DemuxTcp', dump_dot=True, must_pass=True, coverage=False, timeout=1800)
     script_t, stats_t = vlib.graph_script(ctx, rt)
     ctx.extra['tcp_graph'] = stats_t
-    tcp_scs = [dict(nics=[NIC], ops=tcp_ops_from_path(p, nst, ctx.rng)) for p in script_t['paths']]
+    tpaths = list(script_t['paths'])
     if not ctx.thorough():
-        ctx.rng.shuffle(tcp_scs)
-        tcp_scs = tcp_scs[:60]
+        # quick: a sample of the edge cover, preferring paths with a socket life cycle in them (a close followed by another
+        # socket's listen or connect on the same port, then an injected segment): that is where stale registrations show
+        def lifecycle(p):
+            acts = [st['a'] for st in p]
+            if 'CloseSock' not in acts:
+                return 0
+            i = acts.index('CloseSock')
+            rest = acts[i + 1:]
+            return int(('Listen' in rest or 'Connect' in rest) and 'Inject' in rest[(rest.index('Listen') if 'Listen' in rest else rest.index('Connect')):])
+        ctx.rng.shuffle(tpaths)
+        tpaths.sort(key=lambda p: -lifecycle(p))
+        nlife = sum(1 for p in tpaths if lifecycle(p))
+        tpaths = tpaths[:min(nlife, 50)] + tpaths[nlife:nlife + 40]
+        ctx.extra['tcp_graph_paths_quick'] = dict(lifecycle=min(nlife, 50), other=len(tpaths) - min(nlife, 50), of=len(script_t['paths']))
+    tcp_scs = [dict(nics=[NIC], ops=tcp_ops_from_path(p, nst, ctx.rng)) for p in tpaths]
     extra = extra + tcp_scs
     allsc = scs + extra
     segs = vlib.run_scenarios(ctx, drv, [dict(nics=s['nics'], ops=strip(s['ops'])) for s in allsc], 'c09', what='the stack (sockets API / packet injection)')
